@@ -59,23 +59,35 @@ func NewChoiceProvider(w *World) *ChoiceProvider {
 	return &ChoiceProvider{w: w, Catalog: map[string][]*cloudprovider.InstanceType{}}
 }
 
-func (c *ChoiceProvider) hook(verb, name string) error {
+// begin announces a provider call to the hook (fault / scheduling choice point); end logs it and notifies the observer.
+func (c *ChoiceProvider) begin(verb, name string) (*Call, error) {
 	call := &Call{Verb: verb, Kind: "Instance", Name: name}
 	var err error
-	if c.Hook != nil {
+	if c.Hook != nil && c.w.Client.Quiet == 0 {
 		err = c.Hook(call)
+	}
+	if err != nil {
+		c.end(call, err)
+	}
+	return call, err
+}
+
+func (c *ChoiceProvider) end(call *Call, err error) {
+	if c.w.Client.Quiet > 0 {
+		return
 	}
 	if err != nil {
 		call.Err = errString(err)
 	}
-	if c.w.Client.Quiet == 0 {
-		c.w.Client.mu.Lock()
-		defer c.w.Client.mu.Unlock()
-		c.w.Client.seq++
-		call.Seq = c.w.Client.seq
-		c.w.Client.Log = append(c.w.Client.Log, *call)
+	c.w.Client.mu.Lock()
+	c.w.Client.seq++
+	call.Seq = c.w.Client.seq
+	c.w.Client.Log = append(c.w.Client.Log, *call)
+	after := c.w.Client.After
+	c.w.Client.mu.Unlock()
+	if after != nil {
+		after(call)
 	}
-	return err
 }
 
 func (c *ChoiceProvider) catalogFor(pool string) []*cloudprovider.InstanceType {
@@ -127,13 +139,16 @@ func fitsRL(req, alloc corev1.ResourceList) bool {
 }
 
 func (c *ChoiceProvider) Create(ctx context.Context, nc *v1.NodeClaim) (*v1.NodeClaim, error) {
-	if err := c.hook("cp-create", nc.Name); err != nil {
+	call, err := c.begin("cp-create", nc.Name)
+	if err != nil {
 		return nil, err
 	}
 	c.CreateCalls = append(c.CreateCalls, nc.DeepCopy())
 	permitted := c.Permitted(nc)
 	if len(permitted) == 0 {
-		return nil, cloudprovider.NewInsufficientCapacityError(fmt.Errorf("no permitted launch for %s", nc.Name))
+		err := cloudprovider.NewInsufficientCapacityError(fmt.Errorf("no permitted launch for %s", nc.Name))
+		c.end(call, err)
+		return nil, err
 	}
 	idx := 0
 	if c.Pick != nil {
@@ -167,6 +182,8 @@ func (c *ChoiceProvider) Create(ctx context.Context, nc *v1.NodeClaim) (*v1.Node
 			Allocatable: nonZero(l.Alloc)},
 	}
 	c.Instances = append(c.Instances, &Instance{ProviderID: pid, NodeClaim: created, Launch: l})
+	call.Note = l.String()
+	c.end(call, nil)
 	return created.DeepCopy(), nil
 }
 
@@ -194,36 +211,47 @@ func (c *ChoiceProvider) Live() []*Instance {
 }
 
 func (c *ChoiceProvider) Delete(ctx context.Context, nc *v1.NodeClaim) error {
-	if err := c.hook("cp-delete", nc.Name); err != nil {
+	call, err := c.begin("cp-delete", nc.Name)
+	if err != nil {
 		return err
 	}
 	i := c.Instance(nc.Status.ProviderID)
 	if i == nil {
-		return cloudprovider.NewNodeClaimNotFoundError(fmt.Errorf("instance %q not found", nc.Status.ProviderID))
+		err := cloudprovider.NewNodeClaimNotFoundError(fmt.Errorf("instance %q not found", nc.Status.ProviderID))
+		call.Err = "NodeClaimNotFound"
+		c.end(call, nil)
+		return err
 	}
 	if c.ImmediateDelete {
 		i.Gone = true
-		return nil
+	} else {
+		i.Terminating = true
 	}
-	i.Terminating = true
+	c.end(call, nil)
 	return nil
 }
 
 func (c *ChoiceProvider) Get(ctx context.Context, pid string) (*v1.NodeClaim, error) {
-	if err := c.hook("cp-get", pid); err != nil {
+	call, err := c.begin("cp-get", pid)
+	if err != nil {
 		return nil, err
 	}
 	i := c.Instance(pid)
 	if i == nil {
+		call.Err = "NodeClaimNotFound"
+		c.end(call, nil)
 		return nil, cloudprovider.NewNodeClaimNotFoundError(fmt.Errorf("instance %q not found", pid))
 	}
+	c.end(call, nil)
 	return i.NodeClaim.DeepCopy(), nil
 }
 
 func (c *ChoiceProvider) List(ctx context.Context) ([]*v1.NodeClaim, error) {
-	if err := c.hook("cp-list", ""); err != nil {
+	call, err := c.begin("cp-list", "")
+	if err != nil {
 		return nil, err
 	}
+	c.end(call, nil)
 	return lo.Map(c.Live(), func(i *Instance, _ int) *v1.NodeClaim { return i.NodeClaim.DeepCopy() }), nil
 }
 
